@@ -57,3 +57,14 @@ def shrink_tokens(line: str):
             for c in (v // 2, v - 1 if v > 0 else v + 1, 0):
                 if len(str(c)) < len(t):
                     yield " ".join(w[:i] + [str(c)] + w[i + 1:])
+
+
+def drop_defaults(line: str, documented: dict, **named) -> dict:
+    """Keyword arguments for a library call: in half of the cases (chosen by a checksum of the case line, so a replay repeats the
+    choice) every argument that EQUALS its documented default is left out of the call.  `documented` is written down in the
+    harness from the function's documentation - not read from the function object - so a changed default is observable."""
+    import zlib
+    if zlib.crc32(line.encode()) % 2:
+        return named
+    return {k: v for k, v in named.items()
+            if not (k in documented and type(v) is type(documented[k]) and v == documented[k])}
